@@ -30,11 +30,22 @@ def prun(binary, lines, env=None, nproc=None, chunk=400):
     if not lines: return []
     nproc = nproc or max(2, min(8, vlib.NCPU // 2))
     chunks = [lines[i:i + chunk] for i in range(0, len(lines), chunk)]
-    def one(c):
+    def one(c, crashes=0):
+        if crashes >= 2:
+            return ["<skipped: the process crashed on earlier lines of this chunk>"] * len(c)
         rc, out, err = vlib.run_lines(binary, c, env)
-        if rc != 0 or len(out) != len(c):
-            out = out[:len(c)] + [f"<died rc={rc}: {err[-200:]}>"] * (len(c) - len(out))
-        return out
+        if rc == 0 and len(out) == len(c):
+            return out
+        # the process died: its buffered output is lost, so find the culprit by running the lines one at a time
+        res = []
+        for i, l in enumerate(c):
+            rc1, o1, e1 = vlib.run_lines(binary, [l], env)
+            if rc1 != 0 or len(o1) != 1:
+                res.append(f"<died rc={rc1}: {e1[-200:].strip()}>")
+                rest = c[i + 1:]
+                return res + (one(rest, crashes + 1) if rest else [])
+            res.append(o1[0])
+        return res
     with cf.ThreadPoolExecutor(nproc) as ex:
         return [o for outs in ex.map(one, chunks) for o in outs]
 
@@ -45,7 +56,18 @@ def pdiff(ctx, name, lines, env):
     o2 = prun(vlib.driver_bin(), lines)
     ctx.tie(name, kind="differential (C++ harness vs compiled Lean model, same input lines, every line an independent session)", lines=len(lines))
     ctx.count(len(lines))
+    died = [i for i, o in enumerate(o1) if o.startswith("<died")]
+    for i in died[:2]:
+        ctx.violation(f"{name}: the implementation harness crashed on `{lines[i][:160]}` ({o1[i]})",
+                      {"kind": "impl-crash", "tie": name, "input": [lines[i]], "impl_output": o1[i]})
+    if any(o.startswith("<died") for o in o2):
+        i = next(i for i, o in enumerate(o2) if o.startswith("<died"))
+        ctx.violation(f"{name}: the Lean driver died on `{lines[i][:160]}`", {"kind": "model-crash", "tie": name, "input": [lines[i]]}, no_input=True)
     return o1, o2
+
+
+def usable(a, b):
+    return not a.startswith("<") and not b.startswith("<")
 
 
 def oracle(lines):
@@ -120,6 +142,7 @@ def check_scan(ctx, quick, env):
     for i, (s, c, f, h, hs) in enumerate(cases):
         ctx.distinct(("scan", s, c, f, sum(1 for x in hs[:max(s, 0)] if x == h)))
         exp = "1" if scan_spec(s, c, f, h, hs) else "0"
+        if o1[i].startswith("<"): continue          # crashes are reported by pdiff
         if o1[i] != exp and nbad < 3:
             nbad += 1
             ctx.violation(f"Search::canClaimDrawRep(size={s}, hmc={c}, firstNew={f}) returned {o1[i]}, the window specification (rep_scan_spec) gives {exp}",
@@ -127,7 +150,7 @@ def check_scan(ctx, quick, env):
     ctx.sample({"op": lines[0][:80], "impl": o1[0]})
     if not nbad:
         for i, (a, b) in enumerate(zip(o1, o2)):
-            if a != b:
+            if a != b and usable(a, b):
                 ctx.violation(f"scan-kernel: model and implementation disagree on `{lines[i][:120]}`: impl `{a}` model `{b}`",
                               {"kind": "correspondence", "tie": "scan-kernel", "theorem_scope": "Rep.canClaimDrawRep (Draw/RepScan.lean) no longer corresponds to Search::canClaimDrawRep",
                                "input": [lines[i]], "impl": a, "model": b}, no_input=True)
@@ -141,7 +164,8 @@ def check_scan(ctx, quick, env):
 def ep_pin_family(rng):
     """a double push beside an enemy pawn that cannot capture en passant because it is pinned
     (on its file, on a diagonal, or together with the pushed pawn on the rank); returns (fen, double push)"""
-    for _ in range(200):
+    kind = rng.choice(["file", "diag", "rank", "diag", "rank", "free"])
+    for _ in range(400):
         board = [None] * 64
         white = rng.random() < 0.5                     # the side that pushes
         P, p, K, k = ("P", "p", "K", "k") if white else ("p", "P", "k", "K")
@@ -153,7 +177,6 @@ def ep_pin_family(rng):
         if not 0 <= xe < 8: continue
         board[y0 * 8 + x] = P
         board[y1 * 8 + xe] = p                          # enemy pawn beside the target square
-        kind = rng.choice(["file", "diag", "rank", "free"])
         dy = 1 if white else -1                         # direction towards the enemy's home side
         ok = True
         def put(sq, pc):
@@ -270,7 +293,7 @@ def check_setup(ctx, games, env, quick):
                                   f"(or more than 100 entries): `{a}` for `{l[:150]}`",
                                   {"kind": "property-predicate", "tie": "history-builder", "finding_id": FID_EP if "?" in d["idx"] else None, "input": [l], "impl_output": a, "model_output": b})
                 continue
-        if a != b and fails == 0:
+        if a != b and fails == 0 and usable(a, b):
             fails += 1
             fam = meta[i][0]["fam"] if meta[i] else ""
             ctx.violation(f"history-builder: model and implementation disagree on `{l[:150]}`: impl `{a}` model `{b}`",
@@ -337,10 +360,15 @@ def engine_session(args):
             pos = f"position fen {c['fen']}" + (" moves " + " ".join(c["hist"]) if c["hist"] else "")
             go = f"go depth {c['depth']} searchmoves {c['m']}" + (" " + c["other"] if c.get("other") else "")
             try:
+                if c.get("control_fen"): eng.send("setoption name Clear Hash"); eng.isready()
                 out = eng.go(pos, go, timeout=120)
+                out2 = None
+                if c.get("control_fen"):
+                    eng.send("setoption name Clear Hash"); eng.isready()
+                    out2 = eng.go(f"position fen {c['control_fen']}", go, timeout=120)
             except (uci.EngineDied, TimeoutError) as e:
                 recs.append({**c, "opts": opts, "pos": pos, "go": go, "error": str(e)[:300]}); return recs
-            recs.append({**c, "opts": opts, "pos": pos, "go": go, "out": out})
+            recs.append({**c, "opts": opts, "pos": pos, "go": go, "out": out, "out2": out2})
         eng.quit()
     finally:
         eng.kill()
@@ -348,7 +376,7 @@ def engine_session(args):
 
 
 def audit_engine(ctx, recs):
-    stats = ctx.cov.setdefault("engine_audit", {"searches": 0, "third_occurrence": 0, "clock_100": 0, "mate_first": 0, "by_family": {}})
+    stats = ctx.cov.setdefault("engine_audit", {"searches": 0, "third_occurrence": 0, "clock_100": 0, "mate_first": 0, "control": 0, "by_family": {}})
     nviol = 0
     for rec in recs:
         if "error" in rec:
@@ -357,7 +385,20 @@ def audit_engine(ctx, recs):
         ctx.distinct((rec["fen"], " ".join(rec["hist"]), rec["m"], rec["go"], str(rec["opts"])))
         stats["by_family"][rec["fam"]] = stats["by_family"].get(rec["fam"], 0) + 1
         exp = rec["expect"]
-        stats[rec["why"]] += 1
+        stats[rec["why"]] = stats.get(rec["why"], 0) + 1
+        if rec["why"] == "control":
+            def final(lines):
+                xs = [uci.parse_info(l) for l in lines if l.startswith("info") and " score " in l and " pv " in l]
+                xs = [d for d in xs if d.get("pv") and d["pv"][0] == rec["m"]]
+                return (xs[-1].get("score_kind"), xs[-1].get("score"), xs[-1].get("bound")) if xs else None
+            a, b = final(rec["out"]), final(rec["out2"])
+            if a != b and nviol < 4:
+                nviol += 1
+                ctx.violation(f"the move {rec['m']} creates at most the second occurrence of a position (oracle: {rec['oracle']}) but the engine scores it {a} with the game history "
+                              f"and {b} without it (`{rec['pos'][:200]}` / `{rec['go']}` vs `position fen {rec['control_fen']}`)",
+                              {"kind": "property-predicate", "tie": "engine", "fen": rec["fen"], "hist": rec["hist"], "m": rec["m"], "depth": 1, "opts": rec["opts"], "family": rec["fam"],
+                               "expect": None, "why": "control", "oracle": rec["oracle"], "control_fen": rec["control_fen"], "input": [rec["pos"], rec["go"]]})
+            continue
         infos = [uci.parse_info(l) for l in rec["out"] if l.startswith("info") and " score " in l and " pv " in l]
         infos = [d for d in infos if d.get("pv") and d["pv"][0] == rec["m"]]
         bad = None
@@ -381,14 +422,17 @@ def audit_engine(ctx, recs):
         if "out" in rec: ctx.sample({"pos": rec["pos"][:160], "go": rec["go"], "tail": rec["out"][-2:]})
 
 
-def classify(cands):
-    """ask the Lean rule-level oracle what the move does; keep the cases with an exact expectation"""
+def classify(cands, controls=None):
+    """ask the Lean rule-level oracle what the move does; keep the cases with an exact expectation
+    (`controls` collects the moves that create at most a second occurrence well below the 50-move limit)"""
     res = oracle([f"draw line {c['fen']} " + " ".join(c["hist"] + [c["m"]]) for c in cands])
     out = []
     for c, o in zip(cands, res):
         if not o.startswith("ok "): continue
         d = kv(o)
         c = dict(c); c["oracle"] = " ".join(o.split()[1:6])
+        if controls is not None and d["mated"] == "0" and d["stale"] == "0" and int(d["occ"]) <= 1 and int(d["hmc"]) < 99 and c["hist"]:
+            controls.append(c)
         if d["mated"] == "1": c["expect"], c["why"] = ("mate", 1), "mate_first" if int(d["hmc"]) >= 100 or c["fam"] == "mate-first" else None
         elif d["stale"] == "1": continue          # a stalemate at ply 1 is seen only from depth 2 on and is not part of C11
         elif int(d["occ"]) >= 2: c["expect"], c["why"] = ("cp", 0), "third_occurrence"
@@ -401,7 +445,8 @@ def classify(cands):
 
 def check_engine(ctx, games, quick, env):
     r = ctx.rng
-    cands = classify(engine_cases(ctx, games, quick) + mate_first_cases(ctx, quick, env))
+    controls = []
+    cands = classify(engine_cases(ctx, games, quick) + mate_first_cases(ctx, quick, env), controls)
     # balance: keep every e.p. / castle / mate case, sample the rest
     by = {}
     for c in cands: by.setdefault((c["fam"], c["why"]), []).append(c)
@@ -428,6 +473,19 @@ def check_engine(ctx, games, quick, env):
         js = js[i % 2::2] if multi else js[(i if i < 3 else 3)::4]
         for k in range(0, len(js), 50):
             sessions.append((o, js[k:k + 50]))
+    # controls: a move that creates at most the second occurrence must be scored as if there were no history
+    # (depth 1: below ply 1 only the quiescence search runs, which does not look at the history)
+    r.shuffle(controls)
+    second = [c for c in controls if " occ=1 " in " " + c["oracle"] + " "]
+    controls = (second[:60 if quick else 4000] + [c for c in controls if c not in second][:20 if quick else 1000])
+    roots = oracle([f"chess line {c['fen']} " + " ".join(c["hist"]) for c in controls])
+    cjobs = []
+    for c, o in zip(controls, roots):
+        if o.startswith("ok"):
+            c = dict(c); c["control_fen"] = " ".join(o.split()[2:8]); c["depth"] = 1; c["why"] = "control"; c["expect"] = None
+            cjobs.append(c)
+    for k in range(0, len(cjobs), 40):
+        sessions.append(({}, cjobs[k:k + 40]))
     with cf.ThreadPoolExecutor(max(2, vlib.NCPU // 3)) as ex:
         recs = [x for rs in ex.map(engine_session, sessions) for x in rs]
     audit_engine(ctx, recs)
@@ -454,6 +512,10 @@ def gen_scripts(ctx, games, quick):
             near = g["k0"] + 3 <= i <= g["k1"] + 1
             x = r.random()
             pq = 0.5 if near else 0.12
+            if g["fam"].startswith("clock") and r.random() < 0.5:      # claims all along the way to and past move 50
+                items.append(r.choice(["fifty", "fifty " + m, "cp " + m, "fifty " + m]))
+                if items[-1] == "fifty " + m: i += 1
+                continue
             if x < pq:
                 c = r.choice(["rep", "rep " + m, "fifty", "fifty " + m, "cp " + m, "rep " + m, "cp " + m, "offer " + m, "accept"])
                 items.append(c)
@@ -516,7 +578,7 @@ def check_games(ctx, games, quick, env):
     o1, o2 = pdiff(ctx, "console-game", lines, env)
     bad = False
     for i, (l, a, b) in enumerate(zip(lines, o1, o2)):
-        if a != b:
+        if a != b and usable(a, b):
             sa, sb = a.split(" ; "), b.split(" ; ")
             k = next((j for j, (x, y) in enumerate(zip(sa, sb)) if x != y), min(len(sa), len(sb)))
             items = l[len("draw game "):].split(" ; ")
@@ -636,7 +698,8 @@ def replay(ctx, env):
     ctx.count(1); ctx.distinct("replay"); ctx.distinct("replay2")
     if rp.get("tie") == "engine":
         c = {k: rp[k] for k in ("fen", "hist", "m", "depth", "opts")}
-        c.update({"fam": rp.get("family", ""), "other": rp.get("other"), "expect": tuple(rp["expect"]), "why": rp["why"], "oracle": rp["oracle"]})
+        c.update({"fam": rp.get("family", ""), "other": rp.get("other"), "expect": tuple(rp["expect"]) if rp.get("expect") else None, "why": rp["why"], "oracle": rp["oracle"],
+                  "control_fen": rp.get("control_fen")})
         opts = c.pop("opts")
         recs = engine_session((opts, [c]))
         for x in recs: print("\n".join(x.get("out", [str(x)])[-4:]))
